@@ -178,9 +178,23 @@ pub fn generate(seed: u64, fault_free: bool) -> FreezeOut {
             7 => {
                 // negative: frozen code may not assign to an outer variable
                 let name = fg.fresh("G");
-                let body = match fg.rng.below(3) {
+                let l0_at = |i: i64| Lv::Ident("l0".into(), vec![Ix::Index(int(i))]);
+                let body = match fg.rng.below(11) {
                     0 => Ex::Assign(false, Box::new(lv("n0")), Box::new(var("z"))),
                     1 => Ex::OpAssign(false, Box::new(lv("n1")), "+".into(), Box::new(var("z"))),
+                    // every other way of writing to an outer variable
+                    3 => Ex::Seq(vec![Ex::Assign(false, Box::new(l0_at(0)), Box::new(var("z"))), var("l0")], false),
+                    4 => Ex::OpAssign(false, Box::new(l0_at(0)), "+".into(), Box::new(int(1))),
+                    5 => Ex::Remove(Box::new(l0_at(0))),
+                    6 => Ex::Pop(Box::new(lv("l0"))),
+                    7 => Ex::Seq(vec![declare("loc", var("z")), Ex::Swap(Box::new(lv("n0")), Box::new(lv("loc")))], false),
+                    8 => Ex::Assign(
+                        false,
+                        Box::new(Lv::Seq(vec![Lv::Annot(Box::new(lv("loc")), None), lv("n0")], false)),
+                        Box::new(Ex::List(vec![var("z"), int(1)])),
+                    ),
+                    9 => Ex::Assign(true, Box::new(lv("l0")), Box::new(int(0))),
+                    10 => Ex::Consume(Box::new(l0_at(0))),
                     _ => Ex::Seq(
                         vec![
                             declare("loc", var("z")),
